@@ -5,6 +5,7 @@ import (
 	"flag"
 	"fmt"
 	"math/rand"
+	"os"
 	"sort"
 	"sync"
 	"sync/atomic"
@@ -123,6 +124,10 @@ func groupRun(tr *tracer.T, rng *rand.Rand, nOps int, lagLeader bool) {
 		return context.WithTimeout(context.Background(), 10*time.Second)
 	}
 	var uniq atomic.Int64
+	// a request the cluster turned away or did not answer in time (leader change on a loaded machine): a read is
+	// simply no observation; a write may or may not have taken effect, so the history is no longer known exactly and
+	// the behaviour is given up (nothing of it is emitted)
+	var abort atomic.Bool
 	doWrite := func(lr *rand.Rand, node int) {
 		e := c.Engines[node]
 		k := keys[lr.Intn(len(keys))]
@@ -137,7 +142,8 @@ func groupRun(tr *tracer.T, rng *rand.Rand, nOps int, lagLeader bool) {
 			r, err := e.Put(ctx, &regattapb.PutRequest{Table: []byte("t"), Key: k, Value: v, PrevKv: w.cmd.Prev})
 			w.e = seq.Add(1)
 			if err != nil {
-				die("put: %v", err)
+				abort.Store(true)
+				return
 			}
 			w.rev, w.val = r.Header.Revision, 1
 			rp := m.Resp{T: "put"}
@@ -154,7 +160,8 @@ func groupRun(tr *tracer.T, rng *rand.Rand, nOps int, lagLeader bool) {
 			r, err := e.Delete(ctx, &regattapb.DeleteRangeRequest{Table: []byte("t"), Key: k, RangeEnd: w.cmd.End.Bytes(), PrevKv: true, Count: true})
 			w.e = seq.Add(1)
 			if err != nil {
-				die("delete: %v", err)
+				abort.Store(true)
+				return
 			}
 			w.rev, w.val = r.Header.Revision, 1
 			rp := m.Resp{T: "del", Deleted: r.Deleted}
@@ -180,7 +187,8 @@ func groupRun(tr *tracer.T, rng *rand.Rand, nOps int, lagLeader bool) {
 			r, err := e.Txn(ctx, &regattapb.TxnRequest{Table: []byte("t"), Compare: pb.Compare, Success: pb.Success, Failure: pb.Failure})
 			w.e = seq.Add(1)
 			if err != nil {
-				die("txn: %v", err)
+				abort.Store(true)
+				return
 			}
 			w.rev = r.Header.Revision
 			if r.Succeeded {
@@ -200,13 +208,18 @@ func groupRun(tr *tracer.T, rng *rand.Rand, nOps int, lagLeader bool) {
 		if lr.Intn(4) == 0 {
 			// read-only transaction: always linearizable
 			t := m.Cmd{T: "TXN", Succ: []m.Op{{T: "range", K: []byte("a"), End: m.End{Has: true, B: []byte{0}}}, {T: "range", K: []byte("b")}}}
+			if lr.Intn(2) == 0 {
+				// a predicate whose outcome depends on the content: branch and values must come from one log position
+				t.Cmp = []m.Cmp{{K: keys[lr.Intn(len(keys))], Res: []string{"LESS", "GREATER"}[lr.Intn(2)], HasVal: true, Val: []byte(fmt.Sprintf("v%d", 1+lr.Intn(9)))}}
+				t.Fail = []m.Op{{T: "range", K: []byte("c")}, {T: "range", K: []byte("a"), End: m.End{Has: true, B: []byte{0}}, KeysOnly: true}}
+			}
 			pb := t.TxnPB()
 			rd.txn, rd.lin = &t, true
 			rd.s = seq.Add(1)
-			r, err := e.Txn(ctx, &regattapb.TxnRequest{Table: []byte("t"), Success: pb.Success})
+			r, err := e.Txn(ctx, &regattapb.TxnRequest{Table: []byte("t"), Compare: pb.Compare, Success: pb.Success, Failure: pb.Failure})
 			rd.e = seq.Add(1)
 			if err != nil {
-				die("rotxn: %v", err)
+				return
 			}
 			rd.ok, rd.rs = r.Succeeded, m.RespsFromPB(r.Responses)
 		} else {
@@ -218,7 +231,7 @@ func groupRun(tr *tracer.T, rng *rand.Rand, nOps int, lagLeader bool) {
 			r, err := e.Range(ctx, &regattapb.RangeRequest{Table: []byte("t"), Key: rd.op.K, RangeEnd: rd.op.End.Bytes(), Linearizable: rd.lin})
 			rd.e = seq.Add(1)
 			if err != nil {
-				die("range: %v", err)
+				return
 			}
 			rd.r = m.Resp{T: "range", Count: r.Count, More: r.More, Sz: r.SizeVT()}
 			for _, kv := range r.Kvs {
@@ -235,7 +248,7 @@ func groupRun(tr *tracer.T, rng *rand.Rand, nOps int, lagLeader bool) {
 		go func(cl int) {
 			defer wg.Done()
 			lr := rand.New(rand.NewSource(rng.Int63()))
-			for i := 0; i < nOps; i++ {
+			for i := 0; i < nOps && !abort.Load(); i++ {
 				node := fast[lr.Intn(2)] // writers and most readers use the nodes that do not lag
 				if lr.Intn(2) == 0 {
 					doWrite(lr, node)
@@ -278,6 +291,10 @@ func groupRun(tr *tracer.T, rng *rand.Rand, nOps int, lagLeader bool) {
 	}()
 	wg.Wait()
 	close(stopLag)
+	if abort.Load() {
+		fmt.Fprintln(os.Stderr, "behaviour given up: a write was not acknowledged")
+		return
+	}
 	// ---- emit: writes in revision order (ties / zero revisions keep invocation order), then reads
 	sort.SliceStable(writes, func(i, j int) bool { return writes[i].rev < writes[j].rev })
 	// the observed replica may itself be a little behind the node that acknowledged the last writes: let it catch up
